@@ -772,7 +772,7 @@ class Walker:
                 continue
             _, itv, s0 = r
             items = None
-            if itv.kind == "const" and isinstance(itv.value, (tuple, list)) and len(itv.value) <= 16:
+            if itv.kind == "const" and isinstance(itv.value, (tuple, list, dict)) and len(itv.value) <= 16:
                 items = list(itv.value)
             if items is not None:
                 # concrete iteration
@@ -1440,6 +1440,18 @@ class Walker:
         def cont(vals, s):
             if all(v.kind == "const" for v in vals) and not any(isinstance(e, ast.Starred) for e in node.elts):
                 return [("val", Const(ctor(v.value for v in vals)), s)]
+            if all(v.kind == "const" for v in vals) and all(isinstance(v.value, (list, tuple, set, frozenset, dict, str))
+                                                            for e, v in zip(node.elts, vals) if isinstance(e, ast.Starred)):
+                items_ = []
+                for e, v in zip(node.elts, vals):
+                    if isinstance(e, ast.Starred):
+                        items_.extend(list(v.value))
+                    else:
+                        items_.append(v.value)
+                try:
+                    return [("val", Const(ctor(items_)), s)]
+                except TypeError:
+                    pass
             if vals and ctor is tuple and not any(isinstance(e, ast.Starred) for e in node.elts):
                 # a tuple of functions / classes of the repository is a constant table
                 if all(v.kind in ("const", "ref") for v in vals):
@@ -1508,7 +1520,7 @@ class Walker:
         def cont(vals, s):
             s2 = s
             if self.exact_loops and len(node.generators) == 1 and not isinstance(node, ast.DictComp) \
-                    and vals[0].kind == "const" and isinstance(vals[0].value, (list, tuple, str, bytes)) \
+                    and vals[0].kind == "const" and isinstance(vals[0].value, (list, tuple, str, bytes, dict, set, frozenset)) \
                     and len(vals[0].value) <= 64 and not node.generators[0].is_async:
                 # evaluator mode: the comprehension over a known sequence is computed element by element
                 g = node.generators[0]
